@@ -139,7 +139,14 @@ def _owner(ctx, o):
                                                      "the copies placed under it report owner None")
     rs = prog.func('wbs.WBS.roots.setter')
     vp = rs.params[1]
-    st = [(s, v) for s, t, v in facts.attr_stores(rs, 'children') if match(f"{rs.self_name}._WBS__root.children", t)]
+    rex = Expander(prog, rs, ctx.typer)
+    rcfg = cfg_of(rs)
+    st = []
+    for s_, t_, v_ in facts.attr_stores(rs, 'children'):
+        n_ = rcfg.node_of(s_)
+        # the sentinel may be hoisted into a local (hidden_root = self.__root), the value may be an alias of the parameter
+        if match(f"{rs.self_name}._WBS__root", rex.expand(t_.value, n_)):
+            st.append((s_, rex.expand(v_, n_) if len(rex.flow.defs_of(vp)) == 1 else v_))
     if len(st) == 1 and isinstance(st[0][1], ast.Name) and st[0][1].id == vp and not cfg_of(rs).conditions(cfg_of(rs).node_of(st[0][0])):
         o.site(rs, st[0][0], "roots.setter: self.__root.children = value")
     else:
